@@ -352,8 +352,14 @@ func findLoopOver(fn *ssa.Function, x string) *ssa.BasicBlock {
 				return
 			}
 			callee := transparentCallee(ci)
-			if callee == nil || len(ctrlConds(i.Block())) > 0 {
+			if callee == nil {
 				return
+			}
+			// the call must not be conditional, other than on earlier calls having succeeded
+			for _, c := range condStrings(ctrlConds(i.Block())) {
+				if !(strings.HasSuffix(c, " == nil") || strings.HasPrefix(c, "nil == ")) {
+					return
+				}
 			}
 			withCallEnv(ci, callee, func() { found = findLoopOver(callee, x) })
 		})
